@@ -432,7 +432,9 @@ bool rn_pairs(const optable::Info& i, std::vector<RnPair>& out) {
             out.push_back({unit, (raddr::Step)(i.operands[k + 1].value & 3)});
         }
     }
-    if (out.empty() && i.name.size() > 3 && i.name.compare(i.name.size() - 3, 3, "_r0") == 0)
+    // (max_ge / max_gt / min_le / min_lt step r0 as well: their register-only forms latch r0 into mixp and post-modify it)
+    if (out.empty() && ((i.name.size() > 3 && i.name.compare(i.name.size() - 3, 3, "_r0") == 0) || i.name == "max_ge" || i.name == "max_gt" || i.name == "min_le" ||
+                        i.name == "min_lt"))
         for (auto& o : i.operands)
             if (o.type == "StepValue#4")
                 out.push_back({0, (raddr::Step)(o.value & 3)});
